@@ -604,15 +604,26 @@ pub fn c11(cx: &mut Ctx) {
             if cx.rng.gen_bool(0.25) {
                 a_stream.extend(gram::valid(&mut cx.rng, &o).bytes());
             }
+            // where the rejected request starts (everything before it is complete, valid requests)
+            let rej_at = a_stream.len();
             a_stream.extend(a);
+            let a_end = a_stream.len();
             let ka = cx.rng.gen_range(0..3);
             let a_cuts = gram::random_cuts(&mut cx.rng, a_stream.len(), ka);
             let mut evs = reads(&gram::cut(&a_stream, &a_cuts));
+            // the limit may be changed while the request that will be rejected is partly received
+            let limit2: Option<u128> = if cx.rng.gen_bool(0.25) && evs.len() >= 2 { Some(*[0u128, 5, 30, 51200].choose(&mut cx.rng).unwrap()) } else { None };
+            if let Some(l2) = limit2 {
+                let k = cx.rng.gen_range(1..evs.len());
+                evs.insert(k, json!({"e": "setlimit", "limit": obs::digits(l2)}));
+            }
             if cx.rng.gen_bool(0.25) {
                 // a descriptor travels with (some read of) the rejected input
                 let k = cx.rng.gen_range(0..evs.len());
-                cx.next_tag += 1;
-                evs[k]["fds"] = json!([cx.next_tag]);
+                if evs[k]["e"] == "read" {
+                    cx.next_tag += 1;
+                    evs[k]["fds"] = json!([cx.next_tag]);
+                }
             }
             // B
             let mut b = vec![];
@@ -632,6 +643,12 @@ pub fn c11(cx: &mut Ctx) {
             let mut s = script(limit, &["c11", "res", "popped", "pending", "sent", "wres", "files", "fdleak"], 0, evs, name);
             s["drain_after_read"] = json!(true);
             s["c11_fresh"] = json!(true);
+            // (with a limit change before the error the reference connection of c11out would need the same
+            //  change at the same point of ITS stream: those scripts are judged by c11cmp only)
+            if limit2.is_none() {
+                s["rej_at"] = json!(rej_at);
+                s["a_end"] = json!(a_end);
+            }
             cx.push(s);
         }
     }
